@@ -234,8 +234,14 @@ def run_case(case):
                         # cross terms of order (planet mass / star mass)^2 (recorded known finding); anything larger is something else
                         mu = sum(p_['m'] for p_ in spec['system']['planets']) / spec['system']['mstar']
                         relL = mL * EPS * math.sqrt(done)
-                        if gt(relL, 200 * mu * mu + 1e-13):
-                            add('conserve:angular-momentum-class:whfast:barycentric', '%s: max |dL|/S_L = %.3e > 200 mu^2 = %.3e' % (desc, relL, 200 * mu * mu))
+                        # known finding (barycentric splitting): measured 1.0 mu^2 at mu = 1.3e-3 but 7e-4 mu at mu = 1.4e-7, i.e. the
+                        # relative error scales like mu (dt/P)^2 for tiny planets; class bound = the larger of the two scalings
+                        cls_b = max(200 * mu * mu, 0.02 * mu)
+                        if gt(relL, cls_b + 1e-13):
+                            add('conserve:angular-momentum-class:whfast:barycentric', '%s: max |dL|/S_L = %.3e > class %.3e (mu = %.3e)' % (desc, relL, cls_b, mu))
+                            if os.environ.get('VERIF_C04_DUMP'):
+                                with open(os.environ['VERIF_C04_DUMP'], 'a') as df:
+                                    df.write(json.dumps(dict(desc=desc, spec=spec, hist=[(h[0], h[3]) for h in hist])) + '\n')
                 else:
                     relL = max(h[3] for h in hist) * EPS * math.sqrt(done)        # ~ relative to S_L
                     cls = {'ias15': 1e-12, 'bs': 1e4 * max(spec['opts'].get('ri_bs.eps_rel', 1e-8), spec['opts'].get('ri_bs.eps_abs', 1e-8)), 'mercurius': 1e-7, 'trace': 1e-7}[integ]
@@ -243,7 +249,9 @@ def run_case(case):
                         add('conserve:angular-momentum-class:%s' % integ, '%s: max |dL|/S_L = %.3e > class %.1e' % (desc, relL, cls))
                 # energy
                 if integ == 'ias15':
-                    lim = 1e-12 if spec['opts'].get('ri_ias15.epsilon', 1e-9) <= 1e-8 and 'ri_ias15.min_dt' not in spec['opts'] else 1e-6
+                    eps_ = spec['opts'].get('ri_ias15.epsilon', 1e-9)
+                    # machine-precision class for the default tolerance; ten times the tolerance costs about a decade (measured 7.7e-12 over 1e4 steps at 1e-8)
+                    lim = (1e-12 if eps_ <= 1e-9 else 1e-10 if eps_ <= 1e-8 else 1e-6) if 'ri_ias15.min_dt' not in spec['opts'] else 1e-6
                     if gt(mE, lim):
                         add('conserve:energy-class:ias15', '%s: max |dE/E| = %.3e' % (desc, mE))
                 elif integ == 'bs':
